@@ -132,3 +132,29 @@ func ZZ_C04_Step() {
 		}
 	}
 }
+
+// ZZ_C04_ExecutedOutOfOrder: several pending batches (also of the same token), one of them observed executed:
+// afterwards every transfer of the other batches is still in exactly one place.
+func ZZ_C04_ExecutedOutOfOrder() {
+	st := zzBuildState(zzStateOpts{maxPool: 0, maxBatches: 3, maxPerBatch: 1, zeroFees: true, concreteIds: true})
+	k, ctx, chain := st.env.K, st.env.Ctx, st.chain
+	if len(st.batches) < 2 {
+		return
+	}
+	b := st.batches[vrt.Choose("which", len(st.batches))]
+	if vrt.Panics(func() {
+		k.batchTxExecuted(ctx, chain, b.ExternalTokenId, b.BatchNonce, "exthash", sdk.ZeroInt(), "payer")
+	}) {
+		return
+	}
+	vrt.Reach("c04.outoforder")
+	gone := map[uint64]bool{}
+	for _, t := range b.Transactions {
+		gone[t.Id] = true
+	}
+	zzAssertPlaces("outoforder", st, gone)
+	// a later batch request must not pick a transfer that is still in a pending batch
+	k.BuildBatchTx(ctx, chain, st.idA, 2)
+	k.BuildBatchTx(ctx, chain, st.idB, 2)
+	zzAssertPlaces("outoforder.rebatched", st, gone)
+}
